@@ -16,6 +16,15 @@ class TLCError(RuntimeError):
     pass
 
 
+def _die_with_parent():
+    """Linux: deliver SIGKILL to the child when the harness process dies (no orphan JVMs)."""
+    try:
+        import ctypes
+        ctypes.CDLL("libc.so.6").prctl(1, 9)
+    except Exception:
+        pass
+
+
 def brief(out, n=1500):
     """The informative part of a failed TLC run's output."""
     lines = [l for l in out.splitlines() if '@@' not in l]
@@ -110,9 +119,10 @@ def run(module, cfg, workdir=None, workers=1, env=None, timeout=1800, extra=(), 
                 f.write(cfg)
         else:
             shutil.copy(cfg, cfgpath)
-        cmd = ["java", "-XX:+UseParallelGC", "-Xss" + xss]
-        if heap:
-            cmd.append("-Xmx" + heap)
+        cmd = ["java", "-XX:+UseParallelGC", "-XX:+ExitOnOutOfMemoryError", "-Xss" + xss]
+        if heap is None:
+            heap = "3g" if workers == 1 else "12g"
+        cmd.append("-Xmx" + heap)
         cmd += ["-cp", JARS, "tlc2.TLC", "-metadir", os.path.join(scratch, "states"),
                 "-noGenerateSpecTE", "-workers", str(workers), "-config", cfgpath]
         if not deadlock:
@@ -136,7 +146,7 @@ def run(module, cfg, workdir=None, workers=1, env=None, timeout=1800, extra=(), 
         t0 = time.time()
         try:
             p = subprocess.run(cmd, cwd=scratch, env=e, stdout=subprocess.PIPE, stderr=subprocess.STDOUT,
-                               timeout=timeout, universal_newlines=True)
+                               timeout=timeout, universal_newlines=True, preexec_fn=_die_with_parent)
         except subprocess.TimeoutExpired:
             raise TLCError("TLC timed out after %ss: %s" % (timeout, module))
         return TLCResult(p.returncode, p.stdout, time.time() - t0)
